@@ -149,6 +149,22 @@ func main() {
 		time.Sleep(time.Duration(tb.Delay) * time.Millisecond)
 	}
 	fault := tb.Faults[key]
+	// "signal*2": the fault for the first two executions of this job, none afterwards
+	if i := strings.IndexByte(fault, '*'); i > 0 {
+		limit, _ := strconv.Atoi(fault[i+1:])
+		fault = fault[:i]
+		seen := 0
+		if tb, err := os.ReadFile(os.Getenv("VERIF_TRACE")); err == nil {
+			for _, l := range strings.Split(string(tb), "\n") {
+				if strings.Contains(l, `"ev":"StageBegin"`) && strings.Contains(l, `"job":"`+key+`"`) {
+					seen++
+				}
+			}
+		}
+		if seen > limit {
+			fault = ""
+		}
+	}
 	if inv == nil {
 		emit("StageEnd", "job", key, "outcome", "unknown-job")
 		fail(mrjob, md, journal, pre, "vstage: job not in the table: "+key)
